@@ -1,7 +1,8 @@
 CONSTANTS
   Dev = {}
   Alphabet <- AlphaEsc
-  MaxLen = 5
+  MaxLen = 6
+  Prune = TRUE
   DepthProbe = {0, 256}
 INIT Init
 NEXT Next
